@@ -190,6 +190,28 @@ mod verif_kani {
         kani::cover!(dist > 0.5);
     }
 
+    /// Exact permutation tail: every reported p-value lies in [MIN_P_VALUE, 1] (the doubled tail is floored at the
+    /// reportable minimum, not only capped at one), for any subset-count table.
+    #[kani::proof]
+    #[kani::unwind(6)]
+    fn exact_tail_p_values_in_reportable_range_n3() {
+        let counts: [f64; 3] = [kani::any(), kani::any(), kani::any()];
+        let mut i = 0;
+        while i < 3 {
+            // subset counts: non-negative integers below 2^53 (the feasibility guard)
+            kani::assume(counts[i] >= 0.0 && counts[i] <= 9_007_199_254_740_992.0);
+            i += 1;
+        }
+        let p = exact_tail_p_values(&counts);
+        assert!(p.len() == 3, "C20.exact_tail_len");
+        let mut i = 0;
+        while i < 3 {
+            assert!(p[i] >= MIN_P_VALUE && p[i] <= NO_EVIDENCE, "C20.p_value_in_reportable_range");
+            i += 1;
+        }
+        kani::cover!(counts[0] == 1.0 && counts[1] > 4.0e15);
+    }
+
     fn stub_two_sided_p(_z: f64) -> f64 {
         let p: f64 = kani::any();
         kani::assume(p >= MIN_P_VALUE && p <= NO_EVIDENCE);
